@@ -22,6 +22,7 @@ import (
 	"sync/atomic"
 	"time"
 
+	"github.com/robinbraemer/event"
 	"go.minekube.com/gate/pkg/edition/java/proxy"
 
 	"verifharness/e2eb"
@@ -57,12 +58,16 @@ type innerReq struct {
 }
 
 type op struct {
-	kind  string // connect, connect-ind, kick, drop, during
+	kind  string // connect, connect-ind, kick, drop, during, snapshot, stale
 	t     int
 	inner []innerReq // during: requests issued while Connect(stalling backend t) is in flight
+	prev  int        // stale: the server the player was on when the request object was created (-1 none)
 }
 
 func (o op) String() string {
+	if o.kind == "stale" {
+		return fmt.Sprintf("Connect on the request object for s%d created while on server %d", o.t, o.prev)
+	}
 	if o.kind != "during" {
 		return fmt.Sprintf("%s(s%d)", o.kind, o.t)
 	}
@@ -87,6 +92,12 @@ func (o op) coq() string {
 		return "Switch.OKick"
 	case "drop":
 		return "Switch.ODrop"
+	case "stale":
+		prev := "None"
+		if o.prev >= 0 {
+			prev = lib.Some(lib.Nat(o.prev))
+		}
+		return lib.App("Switch.OConnectSnap", prev, lib.Nat(o.t))
 	case "during":
 		return lib.App("Switch.ODuring", lib.Nat(o.t), lib.ListOf(o.inner, func(q innerReq) string {
 			return lib.Pair(lib.Bool(q.ind), lib.Nat(q.t))
@@ -110,6 +121,12 @@ type world struct {
 	name     string
 	scripts  [][]e2eb.Behaviour
 	setupErr string
+
+	// request objects kept for later ("stale" operations): one per target server, first created in a
+	// PostLoginEvent subscriber (before the initial join), re-created by "snapshot" operations
+	slotMu   sync.Mutex
+	slots    []proxy.ConnectionRequest
+	slotPrev []int // server the player was on when the slot's request was created (-1 none)
 }
 
 func (w *world) close() {
@@ -156,6 +173,19 @@ func newWorld(v e2eb.Version, name string, scripts [][]e2eb.Behaviour, try []int
 		}
 		w.rss = append(w.rss, rs)
 	}
+	w.slots = make([]proxy.ConnectionRequest, len(w.rss))
+	w.slotPrev = make([]int, len(w.rss))
+	event.Subscribe(px.Ev, 0, func(e *proxy.PostLoginEvent) {
+		if e.Player().Username() != name {
+			return
+		}
+		w.slotMu.Lock()
+		defer w.slotMu.Unlock()
+		for i, rs := range w.rss {
+			w.slots[i] = e.Player().CreateConnectionRequest(rs)
+			w.slotPrev[i] = w.srvIndex(e2eb.CurrentServerName(e.Player()))
+		}
+	})
 	cl, err := e2eb.Dial(px.Addr(), v, name)
 	if err != nil {
 		w.setupErr = err.Error()
@@ -310,8 +340,13 @@ func (w *world) currentConn() *e2eb.BackendConn {
 	return nil
 }
 
-func (w *world) doOp(o op, stall int) obs {
+func (w *world) doOp(o *op, stall int) obs {
 	if w.pl == nil || !w.pl.Active() {
+		if o.kind == "stale" {
+			w.slotMu.Lock()
+			o.prev = w.slotPrev[o.t]
+			w.slotMu.Unlock()
+		}
 		ob := w.settle(500 * time.Millisecond)
 		ob.res = []string{"Switch.RSkipped"}
 		return ob
@@ -331,6 +366,19 @@ func (w *world) doOp(o op, stall int) obs {
 			d = 400 * time.Millisecond
 		}
 		res = []string{w.connectInd(o.t, d)}
+	case "stale":
+		w.slotMu.Lock()
+		req, prev := w.slots[o.t], w.slotPrev[o.t]
+		if req == nil { // no PostLoginEvent seen (should not happen): create it now
+			req, prev = w.pl.CreateConnectionRequest(w.rss[o.t]), w.srvIndex(e2eb.CurrentServerName(w.pl))
+			w.slots[o.t], w.slotPrev[o.t] = req, prev
+		}
+		w.slotMu.Unlock()
+		o.prev = prev
+		ctx, cancel := context.WithTimeout(context.Background(), long)
+		r, err := req.Connect(ctx)
+		cancel()
+		res = []string{statusName(r, err)}
 	case "kick", "drop":
 		c := w.currentConn()
 		if c == nil {
@@ -398,11 +446,19 @@ type seqCase struct {
 }
 
 var famA, _ = e2eb.VersionByName("1.20.1")
+var famA2, _ = e2eb.VersionByName("1.12.2")
+var famA3, _ = e2eb.VersionByName("1.16.5")
 var famB1, _ = e2eb.VersionByName("1.21.4")
 var famB2, _ = e2eb.VersionByName("1.20.4")
 
 func genSeq(r *lib.Rng, i int) *seqCase {
 	c := &seqCase{fam: "Switch.FamA", v: famA, stall: -1}
+	switch r.Intn(4) {
+	case 0:
+		c.v = famA2
+	case 1:
+		c.v = famA3
+	}
 	if i%2 == 1 {
 		c.fam = "Switch.FamB"
 		c.v = famB1
@@ -470,6 +526,13 @@ func genSeq(r *lib.Rng, i int) *seqCase {
 	nops := r.Range(4, 7)
 	for j := 0; j < nops; j++ {
 		x := r.Intn(100)
+		if r.Chance(1, 5) { // a request object kept from earlier (PostLogin or an earlier "snapshot")
+			if r.Chance(1, 4) {
+				c.ops = append(c.ops, op{kind: "snapshot", t: r.Intn(3)})
+			}
+			c.ops = append(c.ops, op{kind: "stale", t: r.Intn(3)})
+			continue
+		}
 		switch {
 		case x < 36:
 			c.ops = append(c.ops, op{kind: "connect", t: r.Intn(3)})
@@ -514,7 +577,17 @@ func runSeq(c *seqCase, idx int) {
 		}
 		fmt.Fprintf(&dbg, "case %d %s try=%v stall=%d scripts=%v\n  login: %v\n", idx, c.v.Name, c.try, c.stall, sc, c.obs[0])
 	}
-	for _, o := range c.ops {
+	for i := range c.ops {
+		o := &c.ops[i]
+		if o.kind == "snapshot" { // re-create the kept request object now; not an operation of the history
+			if w.pl != nil && w.pl.Active() {
+				w.slotMu.Lock()
+				w.slots[o.t] = w.pl.CreateConnectionRequest(w.rss[o.t])
+				w.slotPrev[o.t] = w.srvIndex(e2eb.CurrentServerName(w.pl))
+				w.slotMu.Unlock()
+			}
+			continue
+		}
 		ob := w.doOp(o, c.stall)
 		c.obs = append(c.obs, ob)
 		if debug {
@@ -626,7 +699,7 @@ func main() {
 	rng := lib.NewRng(f.Seed)
 	out := lib.NewOut("C16", f)
 	out.Imports = "From Verif Require Import Model.Switch.\n"
-	out.Rule = "sequential histories: client family alternates 1.20.1 / 1.21.4 (sometimes 1.20.4); 3 scripted backends (per accepted connection: accept 58%, refuse 10%, kick in login 10%, kick in configuration 11% (pre-1.20.2 clients only; 1.20.2+ get a play kick instead), kick in play before JoinGame 11%) and in half of the histories a 4th backend that never answers the login; try list = ordered subset of the 3 (rarely with the stalling one); log in, then 4-7 operations drawn from Connect / ConnectWithIndication to a random backend, kick from or loss of the current backend, 1-2 requests issued one after the other while a request to the stalling backend is in flight, requests to the stalling backend (400 ms context; the outer request of a during-operation is cancelled by the harness after the inner ones); observation after each operation = (results, CurrentServer, Players() of every server, open backend connections per server, Active). concurrent histories: player on s0, 2-3 goroutines call Connect at once to random backends (s0 = current), logical-clock stamps + final observation. non-trivial = a sequential history with at least one successful switch and one failed attempt, or a concurrent history in which at least two calls were admitted or one was refused as in-progress; distinct = distinct case term"
+	out.Rule = "sequential histories: client family alternates pre-1.20.2 (1.20.1, 1.12.2, 1.16.5) / 1.20.2+ (1.21.4, sometimes 1.20.4); 3 scripted backends (per accepted connection: accept 58%, refuse 10%, kick in login 10%, kick in configuration 11% (pre-1.20.2 clients only; 1.20.2+ get a play kick instead), kick in play before JoinGame 11%) and in half of the histories a 4th backend that never answers the login; try list = ordered subset of the 3 (rarely with the stalling one); log in, then 4-7 operations drawn from Connect / ConnectWithIndication to a random backend, kick from or loss of the current backend, Connect on a request object created earlier (in a PostLoginEvent subscriber before the first join, or at an earlier point of the history) so that its previousServer snapshot is stale (1 in 5 operations), 1-2 requests issued one after the other while a request to the stalling backend is in flight, requests to the stalling backend (400 ms context; the outer request of a during-operation is cancelled by the harness after the inner ones); observation after each operation = (results, CurrentServer, Players() of every server, open backend connections per server, Active). concurrent histories: player on s0, 2-3 goroutines call Connect at once to random backends (s0 = current), logical-clock stamps + final observation. non-trivial = a sequential history with at least one successful switch and one failed attempt, or a concurrent history in which at least two calls were admitted or one was refused as in-progress; distinct = distinct case term"
 	nSeq := f.Count(44)
 	nCon := f.Count(20)
 	seqs := make([]*seqCase, nSeq)
@@ -673,6 +746,15 @@ func emitSeq(out *lib.Out, i int, c *seqCase) {
 	scripts := lib.ListOf(c.scripts, func(sc []e2eb.Behaviour) string {
 		return lib.ListOf(sc, func(b e2eb.Behaviour) string { return behNames[b] })
 	})
+	var real []op // "snapshot" steps are harness bookkeeping, not operations of the history
+	for _, o := range c.ops {
+		if o.kind != "snapshot" {
+			real = append(real, o)
+		}
+	}
+	if c.err == "" {
+		c.ops = real
+	}
 	ops := lib.ListOf(c.ops, func(o op) string { return o.coq() })
 	observed := lib.ListOf(c.obs, func(o obs) string { return o.coq() })
 	term := lib.App("Check.C16.Seq", c.fam, lib.Nat(c.n), stall, lib.ListOf(c.try, lib.Nat), scripts, ops, observed)
